@@ -10,7 +10,8 @@ import (
 // scripts are programmatic nemeses: they react to the state of the cluster
 // (who is leader) instead of following a fixed timetable.
 var scripts = map[string]func(rn *Runner){
-	"fig8x": scriptFig8x,
+	"fig8x":    scriptFig8x,
+	"cfgtrunc": scriptCfgTrunc,
 }
 
 func (rn *Runner) el() time.Duration {
@@ -163,3 +164,69 @@ func scriptFig8x(rn *Runner) {
 }
 
 var _ = raft.Leader
+
+// scriptCfgTrunc (C07): an uncommitted configuration entry reaches one
+// follower only, its leader is deposed, and the new leader's first entry lands
+// on the very same index: the follower has to truncate exactly its latest
+// configuration entry and fall back to the committed configuration.
+func scriptCfgTrunc(rn *Runner) {
+	c := rn.C
+	L := rn.waitLeader(nil, 20)
+	if L == nil {
+		return
+	}
+	time.Sleep(2 * rn.el())
+	if L = rn.waitLeader(nil, 20); L == nil {
+		return
+	}
+	rn.applyBurst(L, rn.rng.Intn(4), "p")
+	time.Sleep(rn.el())
+	// F: a server other than the leader (the non-voter if there is one)
+	var F *Node
+	for i := len(c.Nodes) - 1; i >= 0; i-- {
+		if c.Nodes[i] != L && c.Nodes[i].Cur() != nil {
+			F = c.Nodes[i]
+			break
+		}
+	}
+	if F == nil {
+		return
+	}
+	rn.note("L=%s F=%s", L.name, F.name)
+	rn.cutGroups(map[*Node]bool{L: true, F: true})
+	op := "addvoter"
+	tgt := F
+	if rn.rng.Intn(3) == 0 {
+		op = pick(rn.rng, "demote", "remove", "addnonvoter")
+		for _, nd := range c.Nodes {
+			if nd != L && nd != F {
+				tgt = nd
+			}
+		}
+	}
+	rn.bg(func() { c.Membership(91, L, op, tgt, 0, 50*time.Millisecond) })
+	// the rest elects a leader whose no-op takes the same index
+	rest := map[*Node]bool{}
+	for _, nd := range c.Nodes {
+		if nd != L && nd != F {
+			rest[nd] = true
+		}
+	}
+	W := rn.waitLeader(rest, 40)
+	if W != nil {
+		rn.note("W=%s", W.name)
+	}
+	time.Sleep(rn.el())
+	c.Net.Heal()
+	time.Sleep(4 * rn.el())
+	for _, nd := range c.Nodes {
+		c.Reading(nd, "quiet")
+	}
+	if rn.rng.Intn(2) == 0 {
+		// does F, left alone, start campaigning although the committed configuration gives it no vote?
+		rn.cutGroups(map[*Node]bool{F: true})
+		time.Sleep(6 * rn.el())
+		c.Net.Heal()
+		time.Sleep(2 * rn.el())
+	}
+}
